@@ -23,13 +23,15 @@ class UnIfDefPass(AbstractPass):
     def transform(self, test_case, state, process_event_notifier):
         try:
             cmd = [self.external_programs['unifdef'], '-s', test_case]
-            proc = subprocess.run(cmd, text=True, capture_output=True)
+            # through the notifier, like every other helper run: the pid is recorded, so the helper is killed
+            # together with its candidate when that is cancelled or times out
+            stdout, _stderr, _returncode = process_event_notifier.run_process(cmd)
         except subprocess.SubprocessError:
             return (PassResult.ERROR, state)
 
         defs = {}
 
-        for line in proc.stdout.splitlines():
+        for line in stdout.splitlines():
             defs[line] = 1
 
         deflist = sorted(defs.keys())
